@@ -106,7 +106,10 @@ def iterduplicates(source, key):
     # now use field indices to construct a _getkey function
     # N.B., this may raise an exception on short rows, depending on
     # the field selection
-    getkey = operator.itemgetter(*indices)
+    if indices:
+        getkey = operator.itemgetter(*indices)
+    else:
+        getkey = lambda row: ()  # table without fields
     
     previous = None
     previous_yielded = False
@@ -209,7 +212,10 @@ def iterunique(source, key):
     # now use field indices to construct a _getkey function
     # N.B., this may raise an exception on short rows, depending on
     # the field selection
-    getkey = operator.itemgetter(*indices)
+    if indices:
+        getkey = operator.itemgetter(*indices)
+    else:
+        getkey = lambda row: ()  # table without fields
 
     try:
         prev = next(it)
@@ -347,7 +353,10 @@ def iterconflicts(source, key, missing, exclude, include):
     # now use field indices to construct a _getkey function
     # N.B., this may raise an exception on short rows, depending on
     # the field selection
-    getkey = operator.itemgetter(*indices)
+    if indices:
+        getkey = operator.itemgetter(*indices)
+    else:
+        getkey = lambda row: ()  # table without fields
     
     previous = None
     previous_yielded = False
@@ -432,7 +441,10 @@ class DistinctView(Table):
         # now use field indices to construct a _getkey function
         # N.B., this may raise an exception on short rows, depending on
         # the field selection
-        getkey = operator.itemgetter(*indices)
+        if indices:
+            getkey = operator.itemgetter(*indices)
+        else:
+            getkey = lambda row: ()  # table without fields
 
         INIT = object()
         if self.count:
